@@ -434,9 +434,10 @@ Definition declared (mc : machine) (h : helper) : Prop :=
   | HTo | HGraph => False
   end.
 
-(* every helper a registered model of class k must own *)
+(* every helper a registered model of class k must own (get_graph is not among them: a graph class that refuses
+   a model in the middle of a list leaves the rest of the list registered without graph) *)
 Definition expected (k : mclass) (mc : machine) (h : helper) : Prop :=
-  declared mc h \/ (h = HTo /\ k_hsm k = true) \/ (h = HGraph /\ k_graph k = true).
+  declared mc h \/ (h = HTo /\ k_hsm k = true).
 
 Lemma mh_spec k mc h : has_helper h (machine_helpers k mc) = true <-> declared mc h.
 Proof.
@@ -604,13 +605,12 @@ Proof.
       * rewrite F2. apply NoDup_snoc; [apply I | exact Em].
       * intros x h Hx He. rewrite F2 in Hx. rewrite F1 in He. apply in_app_iff in Hx.
         destruct (Nat.eq_dec x m) as [->|Hne].
-        -- destruct He as [Hd|[[-> Hh]|[-> Hg]]].
+        -- destruct He as [Hd|[-> Hh]].
            ++ apply F7. rewrite upd_obj_eq. cbn [o_helpers o_state].
               assert (Hb : has_helper h (add_helpers (machine_helpers k (w_mc w)) (o_helpers (w_obj w m))) = true).
               { rewrite has_add_helpers. apply orb_true_iff. right. apply mh_spec. exact Hd. }
               destruct (k_hsm k); [rewrite has_add_helper, Hb; reflexivity | exact Hb].
            ++ apply F7. rewrite upd_obj_eq. cbn [o_helpers o_state]. rewrite Hh. rewrite has_add_helper. cbn [helper_eqb]. apply orb_true_r.
-           ++ apply F8; [exact Hg | reflexivity].
         -- destruct Hx as [Hx|[Hx|[]]]; [|congruence].
            rewrite F5 by auto. rewrite upd_obj_neq by auto. apply I; auto.
       * intros x Hx. rewrite F2 in Hx. apply in_app_iff in Hx.
@@ -814,11 +814,340 @@ Proof.
       destruct r1; inversion H; subst; clear H; (split; [exact M' | constructor; assumption]).
 Qed.
 
+(* ------------------------------------------------------------------ add_model with a list of models *)
+(* what every layer above the core loop may do to the world, for the models of the list [ms] *)
+Definition grow (ms : list model) (w w' : mworld) : Prop :=
+  w_mc w' = w_mc w /\ w_initial w' = w_initial w /\ w_pos w' = w_pos w /\ w_models w' = w_models w /\
+  (forall x, ~ In x ms -> w_obj w' x = w_obj w x) /\
+  (forall x, o_state (w_obj w' x) = o_state (w_obj w x)) /\
+  (forall x h, has_helper h (o_helpers (w_obj w x)) = true -> has_helper h (o_helpers (w_obj w' x)) = true) /\
+  (forall x, In x (w_ctx w) -> In x (w_ctx w')) /\ (forall x, In x (w_ctx w') -> In x (w_ctx w) \/ In x ms) /\
+  (forall x, In x (w_queues w) -> In x (w_queues w')) /\ (forall x, In x (w_queues w') -> In x (w_queues w) \/ In x ms) /\
+  (forall x, In x (w_graphs w) -> In x (w_graphs w')) /\ (forall x, In x (w_graphs w') -> In x (w_graphs w) \/ In x ms).
+
+Lemma grow_refl ms w : grow ms w w.
+Proof. unfold grow. splits; auto. Qed.
+
+Lemma grow_trans ms w w1 w2 : grow ms w w1 -> grow ms w1 w2 -> grow ms w w2.
+Proof.
+  intros (A1&A2&A3&A4&A5&A6&A7&A8&A9&A10&A11&A12&A13) (B1&B2&B3&B4&B5&B6&B7&B8&B9&B10&B11&B12&B13).
+  unfold grow. splits; try congruence.
+  - intros x Hx. rewrite B5, A5; auto.
+  - intros x h Hh. apply B7, A7, Hh.
+  - intros x Hx. apply B8, A8, Hx.
+  - intros x Hx. apply B9 in Hx. destruct Hx as [Hx|Hx]; [apply A9 in Hx; tauto | tauto].
+  - intros x Hx. apply B10, A10, Hx.
+  - intros x Hx. apply B11 in Hx. destruct Hx as [Hx|Hx]; [apply A11 in Hx; tauto | tauto].
+  - intros x Hx. apply B12, A12, Hx.
+  - intros x Hx. apply B13 in Hx. destruct Hx as [Hx|Hx]; [apply A13 in Hx; tauto | tauto].
+Qed.
+
+Lemma grow_mono ms ms' w w' : (forall x, In x ms -> In x ms') -> grow ms w w' -> grow ms' w w'.
+Proof.
+  intros Hs (A1&A2&A3&A4&A5&A6&A7&A8&A9&A10&A11&A12&A13). unfold grow. splits; auto.
+  - intros x Hx. apply A9 in Hx. destruct Hx; auto.
+  - intros x Hx. apply A11 in Hx. destruct Hx; auto.
+  - intros x Hx. apply A13 in Hx. destruct Hx; auto.
+Qed.
+
+Lemma grow_fold (f : mworld -> model -> mworld) :
+  (forall w x, grow [x] w (f w x)) -> forall ms w, grow ms w (fold_left f ms w).
+Proof.
+  intros Hf ms. induction ms as [|m r IH]; intro w; simpl.
+  - apply grow_refl.
+  - eapply grow_trans.
+    + eapply grow_mono; [|apply (Hf w m)]. simpl. intros x [->|[]]. left. reflexivity.
+    + eapply grow_mono; [|apply IH]. simpl. auto.
+Qed.
+
+Lemma hsm1_grow known w x : grow [x] w (hsm1 known w x).
+Proof.
+  unfold hsm1. destruct (mem_nat x known); [apply grow_refl|].
+  unfold grow. cbn [w_mc w_initial w_pos w_models w_obj w_ctx w_queues w_graphs set_objs]. splits; auto.
+  - intros y Hy. rewrite upd_obj_neq; auto. simpl in Hy. intuition.
+  - intro y. destruct (Nat.eq_dec y x) as [->|Hne]; [rewrite upd_obj_eq; reflexivity | rewrite upd_obj_neq; auto].
+  - intros y h Hh. destruct (Nat.eq_dec y x) as [->|Hne]; [|rewrite upd_obj_neq; auto].
+    rewrite upd_obj_eq. cbn [o_helpers]. rewrite has_add_helper, Hh. reflexivity.
+Qed.
+
+Lemma lay_locked_grow k w x : grow [x] w (lay_locked k w x).
+Proof.
+  destruct (lay_locked_f k w x) as (L1&L2&L3&L4&L5&L6&L7&L8&L9).
+  unfold grow. splits; try congruence; auto.
+  - intros y Hy. apply L8. left. exact Hy.
+  - intros y Hy. apply L8 in Hy. simpl. intuition.
+  - intros y Hy. rewrite L4 in Hy. left. exact Hy.
+  - intros y Hy. rewrite L5 in Hy. left. exact Hy.
+Qed.
+
+Lemma lay_queue_grow k w x : grow [x] w (lay_queue k w x).
+Proof.
+  destruct (lay_queue_f k w x) as (L1&L2&L3&L4&L5&L6&L7&L8&L9).
+  unfold grow. splits; try congruence; auto.
+  - intros y Hy. rewrite L4 in Hy. left. exact Hy.
+  - intros y Hy. apply L8. left. exact Hy.
+  - intros y Hy. apply L8 in Hy. simpl. intuition.
+  - intros y Hy. rewrite L5 in Hy. left. exact Hy.
+Qed.
+
+Lemma lay_graph_grow k was w x r w' : lay_graph k was w x = (r, w') -> grow [x] w w'.
+Proof.
+  intro H. destruct was.
+  - unfold lay_graph in H. injection H as _ <-. apply grow_refl.
+  - destruct (lay_graph_f _ _ _ _ _ H) as (G1&G2&G3&G4&G5&G6&G7&G8&G9&G10&G11&G12).
+    unfold grow. splits; try congruence; auto.
+    + intros y Hy. apply G7. simpl in Hy. intuition.
+    + intro y. destruct (Nat.eq_dec y x) as [->|Hne]; [exact G8 | rewrite G7; auto].
+    + intros y h Hh. destruct (Nat.eq_dec y x) as [->|Hne]; [apply G9; exact Hh | rewrite G7; auto].
+    + intros y Hy. rewrite G3 in Hy. left. exact Hy.
+    + intros y Hy. rewrite G4 in Hy. left. exact Hy.
+    + intros y Hy. apply G11. left. exact Hy.
+    + intros y Hy. apply G11 in Hy. simpl. intuition.
+Qed.
+
+Lemma graph_list_grow k : forall ms known w r w', graph_list k known w ms = (r, w') -> grow ms w w'.
+Proof.
+  induction ms as [|m rest IH]; intros known w r w' H; simpl in H.
+  - injection H as _ <-. apply grow_refl.
+  - destruct (lay_graph k (mem_nat m known) w m) as [r1 w1] eqn:E.
+    pose proof (lay_graph_grow _ _ _ _ _ _ E) as G1.
+    assert (G1' : grow (m :: rest) w w1) by (eapply grow_mono; [|exact G1]; simpl; intros x [->|[]]; auto).
+    destruct r1 as [e|o].
+    + injection H as _ <-. exact G1'.
+    + eapply grow_trans; [exact G1'|]. eapply grow_mono; [|eapply IH; exact H]. simpl. auto.
+Qed.
+
+(* all models of the list known: the graph layer does nothing at all *)
+Lemma graph_list_known k : forall ms known w, (forall x, In x ms -> In x known) ->
+  graph_list k known w ms = (inr None, w).
+Proof.
+  induction ms as [|m rest IH]; intros known w Hk; simpl; auto.
+  assert (Hm : mem_nat m known = true) by (apply mem_nat_In; apply Hk; left; reflexivity).
+  rewrite Hm. unfold lay_graph. rewrite add_key_present by (apply mem_nat_In; exact Hm).
+  apply IH. intros x Hx. apply Hk. right. exact Hx.
+Qed.
+
+Lemma fold_locked_in k : forall ms w x, k_locked k = true -> In x ms -> In x (w_ctx (fold_left (lay_locked k) ms w)).
+Proof.
+  induction ms as [|m r IH]; intros w x Hk Hx; simpl in *; [contradiction|].
+  destruct Hx as [->|Hx]; [|apply IH; auto].
+  destruct (grow_fold _ (lay_locked_grow k) r (lay_locked k w x)) as (_&_&_&_&_&_&_&A8&_).
+  apply A8. apply (lay_locked_f k w x). right. auto.
+Qed.
+
+Lemma fold_queue_in k : forall ms w x, per_model_queue k = true -> In x ms ->
+  In x (w_queues (fold_left (lay_queue k) ms w)).
+Proof.
+  induction ms as [|m r IH]; intros w x Hk Hx; simpl in *; [contradiction|].
+  destruct Hx as [->|Hx]; [|apply IH; auto].
+  destruct (grow_fold _ (lay_queue_grow k) r (lay_queue k w x)) as (_&_&_&_&_&_&_&_&_&A10&_).
+  apply A10. apply (lay_queue_f k w x). right. auto.
+Qed.
+
+Lemma fold_hsm_to known : forall ms w x, In x ms -> ~ In x known ->
+  has_helper HTo (o_helpers (w_obj (fold_left (hsm1 known) ms w) x)) = true.
+Proof.
+  induction ms as [|m r IH]; intros w x Hx Hn; simpl in *; [contradiction|].
+  destruct Hx as [->|Hx]; [|apply IH; auto].
+  destruct (grow_fold _ (hsm1_grow known) r (hsm1 known w x)) as (_&_&_&_&_&_&A7&_).
+  apply A7. unfold hsm1. apply mem_nat_false in Hn. rewrite Hn. cbn [w_obj set_objs]. rewrite upd_obj_eq.
+  cbn [o_helpers]. rewrite has_add_helper. cbn [helper_eqb]. apply orb_true_r.
+Qed.
+
+(* the core loop *)
+Opaque machine_helpers add_helpers add_helper.
+Lemma add_core1_f k w m init oe w1 :
+  add_core1 k w m init = (oe, w1) ->
+  w_mc w1 = w_mc w /\ w_initial w1 = w_initial w /\ w_pos w1 = w_pos w /\ w_ctx w1 = w_ctx w /\
+  w_queues w1 = w_queues w /\ w_graphs w1 = w_graphs w /\
+  (forall x, x <> m -> w_obj w1 x = w_obj w x) /\
+  (In m (w_models w) -> w1 = w /\ oe = None) /\
+  (forall h, has_helper h (o_helpers (w_obj w m)) = true -> has_helper h (o_helpers (w_obj w1 m)) = true) /\
+  (o_state (w_obj w m) <> None -> o_state (w_obj w1 m) <> None) /\
+  (oe = None -> w_models w1 = (if mem_nat m (w_models w) then w_models w else w_models w ++ [m]) /\
+               (~ In m (w_models w) ->
+                (forall h, declared (w_mc w) h -> has_helper h (o_helpers (w_obj w1 m)) = true) /\
+                o_state (w_obj w1 m) <> None)) /\
+  (oe <> None -> w_models w1 = w_models w /\ ~ In m (w_models w)).
+Proof.
+  unfold add_core1. intro H. destruct (mem_nat m (w_models w)) eqn:Em.
+  - injection H as <- <-. apply mem_nat_In in Em. splits; auto; try tauto; try congruence.
+  - apply mem_nat_false in Em.
+    destruct (get_state (w_mc w) match init with Some s => s | None => w_initial w end);
+      injection H as <- <-; cbn [w_mc w_initial w_pos w_models w_obj w_ctx w_queues w_graphs set_objs set_models];
+      (split; [reflexivity|]); (split; [reflexivity|]); (split; [reflexivity|]); (split; [reflexivity|]);
+      (split; [reflexivity|]); (split; [reflexivity|]);
+      (split; [intros x Hx; rewrite upd_obj_neq; auto|]);
+      (split; [intro Hc; contradiction|]);
+      (split; [intros h Hh; rewrite upd_obj_eq; cbn [o_helpers]; rewrite has_add_helpers, Hh; reflexivity|]).
+    + split; [intros _; rewrite upd_obj_eq; cbn [o_state]; discriminate|].
+      split; [|intro Hc; congruence].
+      intros _. split; [reflexivity|]. intros _. split.
+      * intros h Hd. rewrite upd_obj_eq. cbn [o_helpers]. rewrite has_add_helpers.
+        apply orb_true_iff. right. apply mh_spec. exact Hd.
+      * rewrite upd_obj_eq. cbn [o_state]. discriminate.
+    + split; [intros Hs; rewrite upd_obj_eq; cbn [o_state]; exact Hs|].
+      split; [intro Hc; discriminate|].
+      intros _. split; [reflexivity | exact Em].
+Qed.
+Transparent machine_helpers add_helpers add_helper.
+
+Definition core_rel (k : mclass) (ms : list model) (w w1 : mworld) : Prop :=
+  w_mc w1 = w_mc w /\ w_initial w1 = w_initial w /\ w_pos w1 = w_pos w /\ w_ctx w1 = w_ctx w /\
+  w_queues w1 = w_queues w /\ w_graphs w1 = w_graphs w /\
+  (forall x, ~ In x ms -> w_obj w1 x = w_obj w x) /\
+  (forall x, In x (w_models w) -> w_obj w1 x = w_obj w x) /\
+  (forall x h, has_helper h (o_helpers (w_obj w x)) = true -> has_helper h (o_helpers (w_obj w1 x)) = true) /\
+  (forall x, o_state (w_obj w x) <> None -> o_state (w_obj w1 x) <> None) /\
+  (forall x, In x (w_models w) -> In x (w_models w1)) /\
+  (forall x, In x (w_models w1) -> ~ In x (w_models w) ->
+     In x ms /\ (forall h, declared (w_mc w) h -> has_helper h (o_helpers (w_obj w1 x)) = true) /\
+     o_state (w_obj w1 x) <> None) /\
+  (NoDup (w_models w) -> NoDup (w_models w1)).
+
+Lemma core_list_f k init : forall ms w oe w1,
+  core_list k w ms init = (oe, w1) ->
+  core_rel k ms w w1 /\ (oe = None -> forall x, In x ms -> In x (w_models w1)).
+Proof.
+  induction ms as [|m rest IH]; intros w oe w1 H; simpl in H.
+  - injection H as <- <-. unfold core_rel. splits; auto; try tauto; try congruence. intros _ x [].
+  - destruct (add_core1 k w m init) as [oe1 w2] eqn:E1.
+    destruct (add_core1_f _ _ _ _ _ _ E1) as (A1&A2&A3&A4&A5&A6&A7&A8&A9&A10&A11&A12).
+    assert (Hobj : forall x, In x (w_models w) -> w_obj w2 x = w_obj w x).
+    { intros x Hx. destruct (Nat.eq_dec x m) as [->|Hne]; [|apply A7; exact Hne].
+      destruct (A8 Hx) as [-> _]. reflexivity. }
+    assert (Hgrow : forall x h, has_helper h (o_helpers (w_obj w x)) = true -> has_helper h (o_helpers (w_obj w2 x)) = true).
+    { intros x h Hh. destruct (Nat.eq_dec x m) as [->|Hne]; [apply A9; exact Hh | rewrite A7; auto]. }
+    assert (Hst : forall x, o_state (w_obj w x) <> None -> o_state (w_obj w2 x) <> None).
+    { intros x Hx. destruct (Nat.eq_dec x m) as [->|Hne]; [apply A10; exact Hx | rewrite A7; auto]. }
+    destruct oe1 as [e|].
+    + (* the loop stops here: m is not registered and the initial state is unknown *)
+      injection H as <- <-. destruct (A12 ltac:(discriminate)) as [Hm Hn].
+      split; [|discriminate].
+      unfold core_rel. splits; auto.
+      * intros x Hx. apply A7. intro Heq. apply Hx. left. symmetry. exact Heq.
+      * rewrite Hm. auto.
+      * rewrite Hm. intros x Hx Hc. contradiction.
+      * rewrite Hm. auto.
+    + destruct (A11 eq_refl) as [Hm Hnew].
+      destruct (IH _ _ _ H) as [(B1&B2&B3&B4&B5&B6&B7&B8&B9&B10&B11&B12&B13) Hall].
+      assert (Hm2 : forall x, In x (w_models w2) <-> In x (w_models w) \/ (x = m /\ ~ In m (w_models w))).
+      { intro x. rewrite Hm. destruct (mem_nat m (w_models w)) eqn:Em.
+        - apply mem_nat_In in Em. intuition.
+        - apply mem_nat_false in Em. rewrite in_app_iff. simpl. intuition. }
+      split.
+      * unfold core_rel. splits; try congruence.
+        -- intros x Hx. rewrite B7, A7; auto; intro Hc; apply Hx; [left; symmetry; exact Hc | right; exact Hc].
+        -- intros x Hx. rewrite B8; [apply Hobj; exact Hx | apply Hm2; left; exact Hx].
+        -- intros x h Hh. apply B9, Hgrow, Hh.
+        -- intros x Hx. apply B10, Hst, Hx.
+        -- intros x Hx. apply B11. apply Hm2. left. exact Hx.
+        -- intros x Hx Hn. destruct (in_dec Nat.eq_dec x (w_models w2)) as [Hi|Hni].
+           ++ apply Hm2 in Hi. destruct Hi as [Hi|[-> Hnm]]; [contradiction|].
+              destruct (Hnew Hnm) as [Hd Hs]. splits.
+              ** left. reflexivity.
+              ** intros h Hh. apply B9. apply Hd. exact Hh.
+              ** apply B10. exact Hs.
+           ++ destruct (B12 x Hx Hni) as (C1&C2&C3). splits; [right; exact C1 | | exact C3].
+              intros h Hh. apply C2. rewrite A1. exact Hh.
+        -- intro Hnd. apply B13. rewrite Hm. destruct (mem_nat m (w_models w)) eqn:Em; [exact Hnd|].
+           apply NoDup_snoc; [exact Hnd | apply mem_nat_false; exact Em].
+      * intros He x [<-|Hx]; [|apply Hall; auto].
+        apply B11. apply Hm2. destruct (in_dec Nat.eq_dec m (w_models w)); [left; assumption | right; split; auto].
+Qed.
+
+Lemma core_list_ok k init : forall ms w oe w1,
+  get_state (w_mc w) match init with Some s => s | None => w_initial w end <> None ->
+  core_list k w ms init = (oe, w1) -> oe = None.
+Proof.
+  induction ms as [|m rest IH]; intros w oe w1 Hg H; simpl in H.
+  - injection H as <- _. reflexivity.
+  - unfold add_core1 in H. destruct (mem_nat m (w_models w)).
+    + eapply IH; eauto.
+    + destruct (get_state (w_mc w) match init with Some s => s | None => w_initial w end) eqn:Eg; [|congruence].
+      eapply IH; [|exact H]. cbn [w_mc w_initial set_models set_objs]. rewrite Eg. discriminate.
+Qed.
+
+(* a failing list add registers nobody: it fails at the first new model *)
+Lemma core_list_fail k init : forall ms w e w1,
+  core_list k w ms init = (Some e, w1) -> w_models w1 = w_models w.
+Proof.
+  induction ms as [|m rest IH]; intros w e w1 H; simpl in H.
+  - discriminate.
+  - destruct (add_core1 k w m init) as [oe1 w2] eqn:E1. unfold add_core1 in E1.
+    destruct (mem_nat m (w_models w)).
+    + injection E1 as <- <-. eapply IH; eauto.
+    + destruct (get_state (w_mc w) match init with Some s => s | None => w_initial w end) eqn:Eg.
+      * injection E1 as <- <-. exfalso.
+        assert (Some e = None); [|discriminate].
+        eapply (core_list_ok k init rest); [|exact H]. cbn [w_mc w_initial set_models set_objs]. rewrite Eg. discriminate.
+      * injection E1 as <- <-. injection H as _ <-. reflexivity.
+Qed.
+
+(* everything above the core loop, as one [grow] step, plus what it guarantees for the listed models *)
+Lemma upper_layers_f k known ms w1 r w' :
+  graph_list k known (fold_left (lay_queue k) ms (fold_left (lay_locked k) ms (hsm_list k known w1 ms))) ms = (r, w') ->
+  grow ms w1 w' /\
+  (k_hsm k = true -> forall x, In x ms -> ~ In x known -> has_helper HTo (o_helpers (w_obj w' x)) = true) /\
+  (k_locked k = true -> forall x, In x ms -> In x (w_ctx w')) /\
+  (per_model_queue k = true -> forall x, In x ms -> In x (w_queues w')).
+Proof.
+  intro H.
+  assert (G1 : grow ms w1 (hsm_list k known w1 ms)).
+  { unfold hsm_list. destruct (k_hsm k); [apply grow_fold; apply hsm1_grow | apply grow_refl]. }
+  pose proof (grow_fold _ (lay_locked_grow k) ms (hsm_list k known w1 ms)) as G2.
+  pose proof (grow_fold _ (lay_queue_grow k) ms (fold_left (lay_locked k) ms (hsm_list k known w1 ms))) as G3.
+  pose proof (graph_list_grow _ _ _ _ _ _ H) as G4.
+  split; [eapply grow_trans; [exact G1|]; eapply grow_trans; [exact G2|]; eapply grow_trans; [exact G3 | exact G4]|].
+  destruct G2 as (_&_&_&_&_&_&B7&B8&_). destruct G3 as (_&_&_&_&_&_&C7&C8&_&C10&_).
+  destruct G4 as (_&_&_&_&_&_&D7&D8&_&D10&_).
+  splits.
+  - intros Hk x Hx Hn. apply D7, C7, B7. unfold hsm_list. rewrite Hk. apply fold_hsm_to; auto.
+  - intros Hk x Hx. apply D8, C8. apply fold_locked_in; auto.
+  - intros Hk x Hx. apply D10. apply fold_queue_in; auto.
+Qed.
+
+Lemma Inv_add_models k w ms init r w' : Inv k w -> add_models k w ms init = (r, w') -> Inv k w'.
+Proof.
+  intros I H. unfold add_models in H.
+  destruct (core_list k w ms init) as [oe w1] eqn:Ec.
+  destruct (core_list_f _ _ _ _ _ _ Ec) as [(C1&C2&C3&C4&C5&C6&C7&C8&C9&C10&C11&C12&C13) Call].
+  destruct oe as [e|].
+  - (* ValueError: nobody was registered *)
+    injection H as _ <-. pose proof (core_list_fail _ _ _ _ _ _ Ec) as Hm.
+    constructor.
+    + rewrite Hm. apply I.
+    + rewrite Hm, C1. intros x h Hx He. rewrite C8 by exact Hx. apply I; auto.
+    + rewrite Hm. intros x Hx. rewrite C8 by exact Hx. apply I; auto.
+    + rewrite Hm, C4. apply I.
+    + rewrite Hm, C5. apply I.
+  - destruct (upper_layers_f _ _ _ _ _ _ H) as ((G1&G2&G3&G4&G5&G6&G7&G8&G9&G10&G11&G12&G13) & Hto & Hctx & Hq).
+    constructor.
+    + rewrite G4. apply C13. apply I.
+    + rewrite G4, G1, C1. intros x h Hx He.
+      destruct (in_dec Nat.eq_dec x (w_models w)) as [Hi|Hn].
+      * apply G7. apply C9. apply I; auto.
+      * destruct (C12 x Hx Hn) as (D1&D2&D3). destruct He as [Hd|[-> Hk]].
+        -- apply G7. apply D2. exact Hd.
+        -- apply Hto; auto.
+    + rewrite G4. intros x Hx. rewrite G6.
+      destruct (in_dec Nat.eq_dec x (w_models w)) as [Hi|Hn]; [apply C10; apply I; auto | apply (C12 x Hx Hn)].
+    + rewrite G4. intros Hk x Hx.
+      destruct (in_dec Nat.eq_dec x (w_models w)) as [Hi|Hn].
+      * apply G8. rewrite C4. apply I; auto.
+      * apply Hctx; auto. apply (C12 x Hx Hn).
+    + rewrite G4. intros Hk x Hx.
+      destruct (in_dec Nat.eq_dec x (w_models w)) as [Hi|Hn].
+      * apply G10. rewrite C5. apply I; auto.
+      * apply Hq; auto. apply (C12 x Hx Hn).
+Qed.
+
 (* ------------------------------------------------------------------ the invariant holds after every history *)
 Lemma Inv_step k ev w o : Inv k w -> Inv k (step_w k ev w o).
 Proof.
-  intro I. unfold step_w, step. destruct o as [m init|m|s sd|e t|m bn e a|e a].
+  intro I. unfold step_w, step. destruct o as [m init|ms init|m|s sd|e t|m bn e a|e a].
   - destruct (add_model k w m init) as [r w'] eqn:E. simpl. eapply Inv_add_model; eassumption.
+  - destruct (add_models k w ms init) as [r w'] eqn:E. simpl. eapply Inv_add_models; eassumption.
   - destruct (remove_model k w m) as [r w'] eqn:E. simpl. eapply Inv_remove_model; eassumption.
   - destruct (add_state k w s sd) as [r w'] eqn:E. simpl. eapply Inv_add_state; eassumption.
   - destruct (add_transition k w e t) as [r w'] eqn:E. simpl. eapply Inv_add_transition; eassumption.
@@ -946,7 +1275,10 @@ Qed.
 
 (* --- a model that is not registered is not touched by any operation that does not name it *)
 Definition mentions (m : model) (o : op) : Prop :=
-  match o with OAddModel m' _ => m' = m | OTrigger m' _ _ _ => m' = m | _ => False end.
+  match o with
+  | OAddModel m' _ => m' = m | OAddModels ms _ => In m ms | OTrigger m' _ _ _ => m' = m
+  | _ => False
+  end.
 
 Definition untouched (m : model) (w w' : mworld) : Prop :=
   w_obj w' m = w_obj w m /\ ~ In m (w_models w') /\
@@ -978,7 +1310,7 @@ Qed.
 
 Lemma step_untouched k ev w o m : ~ In m (w_models w) -> ~ mentions m o -> untouched m w (step_w k ev w o).
 Proof.
-  intros Hm Ho. unfold step_w, step. destruct o as [m' init|m'|s sd|e t|m' bn e a|e a]; simpl in Ho.
+  intros Hm Ho. unfold step_w, step. destruct o as [m' init|ms init|m'|s sd|e t|m' bn e a|e a]; simpl in Ho.
   - destruct (add_model k w m' init) as [r w'] eqn:E. simpl. unfold add_model in E.
     destruct (add_core k w m' init) as [oe w1] eqn:Ec.
     destruct (add_core_untouched _ _ _ _ _ _ _ Ec Ho Hm) as (C1&C2&C3&C4&C5).
@@ -991,6 +1323,19 @@ Proof.
       * intro H. apply F9 in H. rewrite C3 in H. destruct H as [H|[H _]]; [exact H | congruence].
       * intro H. apply F10 in H. rewrite C4 in H. destruct H as [H|[H _]]; [exact H | congruence].
       * intro H. apply F11 in H. rewrite C5 in H. destruct H as [H|H]; [exact H | congruence].
+  - destruct (add_models k w ms init) as [r w'] eqn:E. simpl. unfold add_models in E.
+    destruct (core_list k w ms init) as [oe w1] eqn:Ec.
+    destruct (core_list_f _ _ _ _ _ _ Ec) as [(C1&C2&C3&C4&C5&C6&C7&C8&C9&C10&C11&C12&C13) Call].
+    assert (Hm1 : ~ In m (w_models w1)) by (intro Hc; destruct (C12 m Hc Hm) as [Hi _]; contradiction).
+    destruct oe as [x|].
+    + injection E as _ <-. unfold untouched. splits; auto; try congruence.
+    + destruct (upper_layers_f _ _ _ _ _ _ E) as ((G1&G2&G3&G4&G5&G6&G7&G8&G9&G10&G11&G12&G13) & _).
+      unfold untouched. splits.
+      * rewrite G5 by exact Ho. apply C7. exact Ho.
+      * rewrite G4. exact Hm1.
+      * intro H. apply G9 in H. rewrite C4 in H. tauto.
+      * intro H. apply G11 in H. rewrite C5 in H. tauto.
+      * intro H. apply G13 in H. rewrite C6 in H. tauto.
   - destruct (remove_model k w m') as [r w'] eqn:E. simpl. unfold remove_model in E.
     destruct (negb (mem_nat m' (w_models w))).
     + injection E as <- <-. unfold untouched. splits; auto.
@@ -1277,3 +1622,166 @@ Lemma graph_readd_witness :
   | (_, r, w') => r = inl AttributeError /\ w_models w' = [0]
   end.
 Proof. vm_compute. split; reflexivity. Qed.
+
+(* ------------------------------------------------------------------ add_model([..]) of registered models *)
+Lemma world_eq_refl w : world_eq w w.
+Proof. unfold world_eq. splits; auto. Qed.
+Lemma world_eq_trans w w1 w2 : world_eq w w1 -> world_eq w1 w2 -> world_eq w w2.
+Proof.
+  intros (A1&A2&A3&A4&A5&A6&A7&A8) (B1&B2&B3&B4&B5&B6&B7&B8). unfold world_eq. splits; try congruence.
+Qed.
+
+Lemma core_list_reg k init : forall ms w, (forall x, In x ms -> In x (w_models w)) -> core_list k w ms init = (None, w).
+Proof.
+  induction ms as [|m r IH]; intros w H; simpl; auto.
+  unfold add_core1. assert (Hm : mem_nat m (w_models w) = true) by (apply mem_nat_In; apply H; left; reflexivity).
+  rewrite Hm. apply IH. intros x Hx. apply H. right. exact Hx.
+Qed.
+
+Lemma hsm_list_known k known : forall ms w, (forall x, In x ms -> In x known) -> hsm_list k known w ms = w.
+Proof.
+  intros ms w H. unfold hsm_list. destruct (k_hsm k); [|reflexivity].
+  revert w. induction ms as [|m r IH]; intro w; simpl; auto.
+  unfold hsm1 at 2. assert (Hm : mem_nat m known = true) by (apply mem_nat_In; apply H; left; reflexivity).
+  rewrite Hm. apply IH. intros x Hx. apply H. right. exact Hx.
+Qed.
+
+Lemma fold_locked_eq k : forall ms w, (k_locked k = true -> forall x, In x ms -> In x (w_ctx w)) ->
+  world_eq w (fold_left (lay_locked k) ms w).
+Proof.
+  induction ms as [|m r IH]; intros w H; simpl; [apply world_eq_refl|].
+  destruct (lay_locked_f k w m) as (L1&L2&L3&L4&L5&L6&L7&L8&L9).
+  assert (Hc : w_ctx (lay_locked k w m) = w_ctx w).
+  { destruct (k_locked k) eqn:Ek; [apply L9; apply H; auto; left; reflexivity|].
+    unfold lay_locked. rewrite Ek. reflexivity. }
+  eapply world_eq_trans; [|apply IH].
+  - unfold world_eq. splits; try congruence.
+  - intros Hk x Hx. rewrite Hc. apply H; auto. right. exact Hx.
+Qed.
+
+Lemma fold_queue_eq k : forall ms w, (per_model_queue k = true -> forall x, In x ms -> In x (w_queues w)) ->
+  world_eq w (fold_left (lay_queue k) ms w).
+Proof.
+  induction ms as [|m r IH]; intros w H; simpl; [apply world_eq_refl|].
+  destruct (lay_queue_f k w m) as (L1&L2&L3&L4&L5&L6&L7&L8&L9).
+  assert (Hc : w_queues (lay_queue k w m) = w_queues w).
+  { destruct (per_model_queue k) eqn:Ek; [apply L9; apply H; auto; left; reflexivity|].
+    unfold lay_queue. rewrite Ek. reflexivity. }
+  eapply world_eq_trans; [|apply IH].
+  - unfold world_eq. splits; try congruence.
+  - intros Hk x Hx. rewrite Hc. apply H; auto. right. exact Hx.
+Qed.
+
+(* one add_model call listing only registered models — each of them any number of times — has no effect *)
+Lemma add_twice_list_thm k ev w ms init bs r w' :
+  Inv k w -> (forall x, In x ms -> In x (w_models w)) ->
+  step k ev w (OAddModels ms init) = (bs, r, w') ->
+  bs = [] /\ r = inr None /\ world_eq w w'.
+Proof.
+  intros I Hreg H. unfold step in H. destruct (add_models k w ms init) as [r1 w1] eqn:E.
+  injection H as <- <- <-. split; [reflexivity|].
+  unfold add_models in E. rewrite (core_list_reg k init ms w Hreg) in E.
+  rewrite (hsm_list_known k (w_models w) ms w Hreg) in E.
+  rewrite (graph_list_known k ms (w_models w) _ Hreg) in E. injection E as <- <-. split; [reflexivity|].
+  eapply world_eq_trans.
+  - apply (fold_locked_eq k ms w). intros Hk x Hx. apply (inv_ctx _ _ I); auto.
+  - apply fold_queue_eq. intros Hk x Hx.
+    destruct (fold_locked_eq k ms w) as (_&_&_&_&_&_&Q&_).
+    + intros Hk' y Hy. apply (inv_ctx _ _ I); auto.
+    + rewrite Q. apply (inv_queue _ _ I); auto.
+Qed.
+
+Lemma add_twice_list_reachable k ev mc ini hs ms init bs r w' :
+  let w := run k ev (init_world mc ini) hs in
+  (forall x, In x ms -> In x (w_models w)) ->
+  step k ev w (OAddModels ms init) = (bs, r, w') ->
+  bs = [] /\ r = inr None /\ world_eq w w'.
+Proof. intro w. apply add_twice_list_thm. apply Inv_reachable. Qed.
+
+(* the same object listed several times in ONE call / in the constructor list is registered once *)
+Lemma in_call_repetition_witness :
+  let k := mkClass true false true false QNo in
+  let ev := fun (_ _ : nat) => mkReply true None [] in
+  let t := mkTrans 0 (Some 0) [] [] [] [] in
+  let w := run k ev (init_world mc1 0) [OAddModels [0; 1; 0] None; OAddTransition 5 t; OAddModels [2; 2; 0] None] in
+  w_models w = [0; 1; 2] /\ w_ctx w = [0; 1; 2] /\
+  match step k ev w (ODispatch 5 7) with (bs, r, _) => map b_model bs = [0; 1; 2] /\ r = inr (Some true) end /\
+  w_models (step_w k ev w (ORemoveModel 0)) = [1; 2].
+Proof. vm_compute. repeat split; reflexivity. Qed.
+
+(* ------------------------------------------------------------------ remove_model([m1; m2; ...]) from a callback
+   while events are pending (Queue.v removes the listed models one after the other): the event in progress
+   stays, exactly the pending events of the listed models disappear — of ALL of them, not only of the last *)
+From M Require Import Queue.
+From P Require Import QueueP.
+
+Lemma filter_all_true {A} (f : A -> bool) l : (forall x, f x = true) -> filter f l = l.
+Proof. intro H. induction l as [|a r IH]; simpl; auto. rewrite H, IH. reflexivity. Qed.
+
+Lemma filter_twice {A} (f g : A -> bool) l : filter f (filter g l) = filter (fun x => g x && f x) l.
+Proof.
+  induction l as [|a r IH]; simpl; auto. destruct (g a); simpl; [|exact IH].
+  destruct (f a); rewrite IH; reflexivity.
+Qed.
+
+Lemma filter_same {A} (f g : A -> bool) l : (forall x, f x = g x) -> filter f l = filter g l.
+Proof. intro H. induction l as [|a r IH]; simpl; auto. rewrite H, IH. reflexivity. Qed.
+
+Lemma existsb_filter_sub m (f : nat -> bool) l :
+  existsb (Nat.eqb m) l = false -> existsb (Nat.eqb m) (filter f l) = false.
+Proof.
+  induction l as [|a r IH]; simpl; auto. intro H. apply orb_false_iff in H. destruct H as [H1 H2].
+  destruct (f a); simpl; [rewrite H1; simpl|]; auto.
+Qed.
+
+Section RemoveList.
+  Variable payload : qentry -> nat -> nat.
+
+  Lemma remove_models_step cur k m (s : qstate) h tl :
+    qs_queue s = h :: tl -> existsb (Nat.eqb m) (qs_models s) = true ->
+    qs_queue (apply_action payload cur k (ARemoveModel m) s) = h :: filter (fun x => negb (Nat.eqb (q_model x) m)) tl /\
+    qs_models (apply_action payload cur k (ARemoveModel m) s) = remove_model_list (qs_models s) m.
+  Proof.
+    intros Q M. cbn [apply_action]. rewrite M. cbn [negb]. rewrite Q. cbn. split; reflexivity.
+  Qed.
+
+  Lemma removed_stays_removed cur m : forall rest k (s : qstate),
+    existsb (Nat.eqb m) (qs_models s) = false ->
+    existsb (Nat.eqb m) (qs_models (apply_actions payload cur k (map ARemoveModel rest) s)) = false.
+  Proof.
+    induction rest as [|y r IHr]; intros k s Hg; cbn [map apply_actions]; [exact Hg|].
+    apply IHr. cbn [apply_action].
+    destruct (negb (existsb (Nat.eqb y) (qs_models s))); [exact Hg|].
+    destruct (qs_queue s); cbn [qs_models]; unfold remove_model_list; apply existsb_filter_sub; exact Hg.
+  Qed.
+
+  Lemma remove_list_exact cur : forall ms k (s : qstate) h tl,
+    qs_queue s = h :: tl -> NoDup ms ->
+    (forall m, In m ms -> existsb (Nat.eqb m) (qs_models s) = true) ->
+    let s' := apply_actions payload cur k (map ARemoveModel ms) s in
+    qs_queue s' = h :: filter (fun x => negb (mem_nat (q_model x) ms)) tl /\
+    (forall m, In m ms -> existsb (Nat.eqb m) (qs_models s') = false).
+  Proof.
+    induction ms as [|m rest IH]; intros k s h tl Q Hnd Hreg; cbn [map apply_actions].
+    - split; [|intros m []]. rewrite Q. f_equal. symmetry. apply filter_all_true. intro x. reflexivity.
+    - inversion Hnd as [|? ? Hni Hnd']; subst.
+      destruct (remove_models_step cur k m s h tl Q (Hreg m (or_introl eq_refl))) as [Q1 M1].
+      assert (Hreg1 : forall y, In y rest ->
+                existsb (Nat.eqb y) (qs_models (apply_action payload cur k (ARemoveModel m) s)) = true).
+      { intros y Hy. rewrite M1. unfold remove_model_list. apply existsb_exists.
+        pose proof (Hreg y (or_intror Hy)) as Hy'. apply existsb_exists in Hy'. destruct Hy' as [z [Hz Hzy]].
+        exists z. split; [|exact Hzy]. apply filter_In. split; [exact Hz|].
+        apply Nat.eqb_eq in Hzy. subst z. apply negb_true_iff. apply Nat.eqb_neq. intro Hc. subst. contradiction. }
+      destruct (IH (S k) _ h _ Q1 Hnd' Hreg1) as [Q2 M2]. split.
+      + rewrite Q2. f_equal. rewrite filter_twice. apply filter_same. intro x.
+        unfold mem_nat. cbn [existsb]. rewrite negb_orb. reflexivity.
+      + intros y [<-|Hy]; [|apply M2; exact Hy].
+        (* m itself: removed by the first step, never re-added *)
+        clear IH Q2 M2 Hreg1 Q1.
+        assert (Hgone : existsb (Nat.eqb m) (qs_models (apply_action payload cur k (ARemoveModel m) s)) = false).
+        { rewrite M1. unfold remove_model_list. destruct (existsb _ _) eqn:E; [|reflexivity].
+          apply existsb_exists in E. destruct E as [z [Hz Hzm]]. apply filter_In in Hz. destruct Hz as [_ Hz].
+          apply Nat.eqb_eq in Hzm. subst z. rewrite Nat.eqb_refl in Hz. discriminate. }
+        apply removed_stays_removed. exact Hgone.
+  Qed.
+End RemoveList.
